@@ -139,21 +139,31 @@ CLAIMED = {
         text=("Theorems (Coq): numeric response returned unchanged; categorical response = one indicator per level in "
               "sorted/declared order; y[level] = one 0/1 column; prop = successes/trials with validation; the response "
               "must be a single one-component term (see property file). Independence of the predictors from the "
-              "response is decided by the oracle and the correspondence." + COMMON),
+              "response: two formulas that differ only left of the tilde give the same common and group terms "
+              "(names, labels, rows, levels, memorised transform parameters) whenever each response is observed "
+              "where the predictors are complete, under every na_action; a formula without response builds the same "
+              "predictors (C15_predictors_independent_of_response, C15_without_response); the premise is shown "
+              "necessary by a computed witness." + COMMON),
         design_ref="DESIGN.md section 5 C15, section 10",
         technique="Coq proof: response coding lemmas; correspondence over 23 response forms x right-hand sides"),
     "C16": dict(
         text=("Theorems (Coq): aliases are equal model functions and bind to the same objects in the regenerated "
-              "TRANSFORMS registry (Tie.v); binary/offset/I specifications (see property file). Prediction-time "
-              "behaviour of offset and prop is decided by the oracle and the correspondence." + COMMON),
+              "TRANSFORMS registry (Tie.v); binary/offset/I specifications (see property file). Prediction time: "
+              "offset(v) is recomputed from the new frame and a constant is broadcast to its rows, prop reports the "
+              "trials of the new frame, binary applies its rule to the new frame, a proportion is never a predictor "
+              "(C16_*_at_prediction, C16_prop_trials_of_new_frame)." + COMMON),
         design_ref="DESIGN.md section 5 C16, section 10",
         technique="Coq proof: alias equalities + registry tie; correspondence of helper calls at training and prediction time"),
     "C17": dict(
         text=("Theorems (Coq): slices computed from widths are contiguous from 0 in term order and cover the columns, "
               "also for the widened group matrix returned by evaluate_new_data; stacked width = sum of block widths. "
-              "Views (__getitem__, as_dataframe, __array__, unpacking, str/repr) are Python glue decided by the oracle." + COMMON),
+              "Functional part: every design built from a rectangular frame has one row per retained observation in "
+              "response, common and group matrices, pairwise distinct term names, and indexing a matrix by a term "
+              "name returns exactly that term's columns while any other name is refused -- also for the matrices "
+              "returned for new data (C17_common_index, C17_group_index, C17_new_group_index, C17_new_common_index). "
+              "Views (as_dataframe, __array__, unpacking, str/repr) are Python glue decided by the oracle." + COMMON),
         design_ref="DESIGN.md section 5 C17, section 10",
-        technique="Coq proof: slice contiguity invariant; container-consistency oracle over derived objects"),
+        technique="Coq proof: slice contiguity + index-by-name returns the term's block (training and new data); container-consistency oracle over derived objects"),
 }
 
 WIP = "model/theorems/correspondence under construction (see DESIGN.md section 8); not claimed yet"
